@@ -173,7 +173,7 @@ Lemma symlink_owner_refuted :
     realised_tags m (mkStep (match direct 40 f' (path_of (m_path m)) with FOk n => Some (dentry_of "" n) | _ => None end)
                             None 0 None []) = ["viol:symlink-owner-not-applied"].
 Proof.
-  exists [mkNode KDir 493 0 0 "" "" [("plain", 1%nat)]; mkNode KDir 488 1 2 "" "" []].
+  exists [mkNode KDir 493 0 0 "" "" [("plain", 1%nat)] ""; mkNode KDir 488 1 2 "" "" [] ""].
   exists (mkMut "symlink" "/lnk" "plain" 448 9 9 false). eexists.
   split; [reflexivity|]. split; [vm_compute; reflexivity|].
   split; [eexists; split; [vm_compute; reflexivity|]; repeat split; discriminate|].
@@ -218,11 +218,15 @@ Lemma realised_tags_empty_file : forall m o, m_type m = "empty-file" ->
   (realised_tags m o = [] <-> Realised m o).
 Proof.
   intros m o Ht. unfold realised_tags, Realised. rewrite Ht. simpl.
-  rewrite tag_if_nil, negb_false_iff. destruct (so_stat o) as [s|].
-  - rewrite !andb_true_iff, kind_eqb_iff', has_attrs_b_iff, N.eqb_eq. split.
-    + intros [[H1 H2] H3]. exists s; auto.
-    + intros (s' & E & H1 & H2 & H3). inversion E; subst; auto.
-  - split; [discriminate | intros (s' & E & _); discriminate].
+  rewrite app_nil_iff, !tag_if_nil, negb_false_iff. destruct (so_stat o) as [s|].
+  - pose proof (kind_eqb_iff' (si_kind s) KFile) as [HK1 HK2]. pose proof (has_attrs_b_iff m s) as [HA1 HA2].
+    pose proof (N.eqb_eq (so_size o) 0) as [HS1 HS2].
+    split.
+    + intros [A B]. apply andb_true_iff in A. destruct A as [A1 A2]. rewrite A1, A2 in B. simpl in B.
+      apply negb_false_iff in B. exists s. auto.
+    + intros (s' & E & H1 & H2 & H3). inversion E; subst s'.
+      rewrite (HK2 H1), (HA2 H2), (HS2 H3). split; reflexivity.
+  - split; [intros [H _]; discriminate | intros (s' & E & _); discriminate].
 Qed.
 Lemma realised_tags_directory : forall m o, m_type m = "directory" ->
   (realised_tags m o = [] <-> Realised m o).
